@@ -324,7 +324,7 @@ def dist(
       - J. Richter-Gebert: Perspectives on Projective Geometry, Section 18.8
 
     """
-    if p == q:
+    if type(p) is type(q) and p == q:
         return np.zeros(p.shape[: p.free_indices])
 
     if isinstance(p, PointTensor) and isinstance(q, PointTensor):
